@@ -372,4 +372,196 @@ example :
     (∀ c ∈ "b".toList, c ≠ '}' ∧ c ≠ '\n') ∧ startsWith ("b".toList ++ ['}']) Chan.lastSavedTag = false := by
   decide
 
+/-! ## the hypotheses of the C03 composition, derived from the rows -/
+
+def GoodName (n : Str) : Prop := '/' ∉ n ∧ n ≠ []
+
+instance (n : Str) : Decidable (GoodName n) := by unfold GoodName; exact inferInstance
+
+/-- every named row has an XML-ish name (no `/`, non-empty): what the row loop's `is_xml_tag` check enforces -/
+def GoodRows (rows : List Cells) : Prop := ∀ r ∈ rows, ∀ n, Rows.get r "name" = some n → GoodName n
+
+/-- no group / repeat row is called `meta` (such a form is rejected: it would clash with the generated meta group) -/
+def NoMetaSection (rows : List Cells) : Prop :=
+  ∀ r ∈ rows, ∀ t n, Rows.get r "type" = some t → Rows.get r "name" = some n →
+    (Rows.matchControl "begin" true t).isSome = true → n ≠ metaName
+
+def frameKind (f : Frame) : Kind := if f.ct = "repeat".toList then Kind.rep else Kind.group
+
+/-- what `rowChains` guarantees about each chain it emits -/
+def RowChainOK (root : Str) (c : Chain) : Prop :=
+  (∃ ns last, c.path = root :: ns ++ [last] ∧ (∀ s ∈ ns ++ [last], GoodName s)) ∧
+  (c.isRep = true → c.path.getLast? ≠ some metaName)
+
+theorem isRep_snoc (pre : Chain) (n : Str) (k : Kind) : Chain.isRep (pre ++ [(n, k)]) = decide (k = Kind.rep) := by
+  unfold Chain.isRep
+  simp only [List.getLast?_append, List.getLast?_singleton, Option.or_some, Option.some_or]
+  cases k <;> rfl
+
+theorem rowChains_inv (root : Str) : ∀ (rows : List Cells) (st : List Frame), GoodRows rows → NoMetaSection rows →
+    (∀ f ∈ st, GoodName f.name) → ∀ c ∈ rowChains root st rows, RowChainOK root c := by
+  intro rows
+  induction rows with
+  | nil => intro st _ _ _ c hc; simp [rowChains] at hc
+  | cons r rs ih =>
+    intro st hg hm hst c hc
+    have hg' : GoodRows rs := fun r' h' => hg r' (by simp [h'])
+    have hm' : NoMetaSection rs := fun r' h' => hm r' (by simp [h'])
+    have hdrop : ∀ f ∈ st.drop 1, GoodName f.name := fun f hf => hst f (List.mem_of_mem_drop hf)
+    have mk : ∀ (name : Str) (k : Kind), GoodName name → (k = Kind.rep → name ≠ metaName) →
+        RowChainOK root (((root, Kind.group) :: st.reverse.map fun f => (f.name, frameKind f)) ++ [(name, k)]) := by
+      intro name k hn hk
+      refine ⟨⟨st.reverse.map (·.name), name, by simp [Chain.path, Function.comp_def], ?_⟩, ?_⟩
+      · intro s hs
+        simp only [List.mem_append, List.mem_map, List.mem_reverse, List.mem_singleton] at hs
+        rcases hs with ⟨f, hf, rfl⟩ | rfl
+        · exact hst f hf
+        · exact hn
+      · intro hrep
+        rw [isRep_snoc] at hrep
+        have := hk (by simpa using hrep)
+        simp only [Chain.path, List.map_cons, List.map_append, List.map_nil]
+        rw [List.getLast?_append]
+        simp [this]
+    unfold rowChains at hc
+    simp only at hc
+    split at hc
+    · next t name ht hn =>
+      have hname := hg r (by simp) name hn
+      split at hc
+      · exact ih _ hg' hm' hdrop c hc
+      · split at hc
+        · exact ih _ hg' hm' hst c hc
+        · split at hc
+          · next cc hb =>
+            simp only [List.mem_cons] at hc
+            rcases hc with rfl | hc
+            · exact mk name _ hname (fun _ => hm r (by simp) t name ht hn (by simp [hb]))
+            · refine ih _ hg' hm' ?_ c hc
+              intro f hf
+              simp only [List.mem_cons] at hf
+              rcases hf with rfl | hf
+              · exact hname
+              · exact hst f hf
+          · split at hc
+            · exact ih _ hg' hm' hst c hc
+            · simp only [List.mem_cons] at hc
+              rcases hc with rfl | hc
+              · exact mk name Kind.q hname (fun h => by cases h)
+              · exact ih _ hg' hm' hst c hc
+    · split at hc
+      · exact ih _ hg' hm' hdrop c hc
+      · exact ih _ hg' hm' hst c hc
+    · exact ih _ hg' hm' hst c hc
+
+theorem meta_names_good : GoodName metaName ∧ GoodName entityName := by decide
+
+theorem goodNames_of (p : List Str) (h : ∀ s ∈ p, GoodName s) : GoodNames p := h
+
+/-- **chains_entity_hyps.**  The hypotheses of `entity_ref_absolute` / `entity_ref_text` / `entity_sub_single`, derived
+    from the rows: for the element list the driver builds from a sheet (`chainsOfRows`), neither the survey root nor
+    the generated `meta` group is a repeat — provided names are XML-ish (what the row loop checks) and no group or
+    repeat row is called `meta` (such a form is rejected: two sections of that name). -/
+theorem chains_entity_hyps (root : Str) (hasEntity : Bool) (survey : List Cells) (metaQs : List Str)
+    (hroot : GoodName root) (hg : GoodRows survey) (hm : NoMetaSection survey) :
+    GoodNames [root, metaName, entityName] ∧
+    pathStr [root] ∉ repeatXpaths (chainsOfRows root hasEntity survey metaQs) ∧
+    pathStr [root, metaName] ∉ repeatXpaths (chainsOfRows root hasEntity survey metaQs) := by
+  obtain ⟨gm, ge⟩ := meta_names_good
+  have g3 : GoodNames [root, metaName, entityName] := by
+    intro s hs
+    simp only [List.mem_cons, List.mem_nil_iff, or_false] at hs
+    rcases hs with rfl | rfl | rfl
+    · exact hroot
+    · exact gm
+    · exact ge
+  have key : ∀ x ∈ repeatXpaths (chainsOfRows root hasEntity survey metaQs),
+      ∃ c ∈ rowChains root [] survey, c.isRep = true ∧ x = pathStr c.path := by
+    intro x hx
+    unfold repeatXpaths at hx
+    obtain ⟨c, hc, rfl⟩ := List.mem_map.mp hx
+    obtain ⟨hmem, hrep⟩ := List.mem_filter.mp hc
+    unfold chainsOfRows at hmem
+    simp only [List.mem_cons, List.mem_append, List.mem_map] at hmem
+    rcases hmem with ((rfl | hrow) | hmeta) | ⟨n, _, rfl⟩
+    · simp [Chain.isRep] at hrep
+    · exact ⟨c, hrow, hrep, rfl⟩
+    · split at hmeta
+      · cases hmeta
+      · simp only [List.mem_singleton] at hmeta
+        subst hmeta
+        simp [Chain.isRep] at hrep
+    · simp [Chain.isRep] at hrep
+  refine ⟨g3, ?_, ?_⟩
+  · intro hx
+    obtain ⟨c, hc, _, he⟩ := key _ hx
+    obtain ⟨⟨ns, last, hp, hgood⟩, _⟩ := rowChains_inv root survey [] hg hm (by simp) c hc
+    have gc : GoodNames c.path := by
+      rw [hp]; intro s hs
+      simp only [List.mem_append, List.mem_cons, List.mem_nil_iff, or_false] at hs
+      rcases hs with (rfl | hs) | rfl
+      · exact hroot
+      · exact hgood s (by simp [hs])
+      · exact hgood s (by simp)
+    have := pathStr_inj [root] c.path (by simp) (by rw [hp]; simp) (by intro s hs; simp at hs; subst hs; exact hroot) gc he
+    rw [hp] at this
+    simp at this
+  · intro hx
+    obtain ⟨c, hc, hrep, he⟩ := key _ hx
+    obtain ⟨⟨ns, last, hp, hgood⟩, hlast⟩ := rowChains_inv root survey [] hg hm (by simp) c hc
+    have gc : GoodNames c.path := by
+      rw [hp]; intro s hs
+      simp only [List.mem_append, List.mem_cons, List.mem_nil_iff, or_false] at hs
+      rcases hs with (rfl | hs) | rfl
+      · exact hroot
+      · exact hgood s (by simp [hs])
+      · exact hgood s (by simp)
+    have g2 : GoodNames [root, metaName] := by
+      intro s hs
+      simp only [List.mem_cons, List.mem_nil_iff, or_false] at hs
+      rcases hs with rfl | rfl
+      · exact hroot
+      · exact gm
+    have := pathStr_inj [root, metaName] c.path (by simp) (by rw [hp]; simp) g2 gc he
+    exact hlast hrep (by rw [← this]; rfl)
+
+/-- **entity_ref_absolute_rows.**  `entity_ref_absolute` with its hypotheses discharged from the sheet: for the
+    element list of any sheet with XML-ish names and no section called `meta`, a reference in an entity cell is
+    resolved exactly as without context (absolute path), whatever the flags. -/
+theorem entity_ref_absolute_rows (root : Str) (hasEntity : Bool) (survey : List Cells) (metaQs : List Str) (name : Str)
+    (fl : Flags) (hroot : GoodName root) (hg : GoodRows survey) (hm : NoMetaSection survey) :
+    refFor (chainsOfRows root hasEntity survey metaQs) (some (entityChain root)) name fl =
+      refFor (chainsOfRows root hasEntity survey metaQs) none name fl := by
+  obtain ⟨g3, h1, h2⟩ := chains_entity_hyps root hasEntity survey metaQs hroot hg hm
+  exact entity_ref_absolute _ root name fl g3 h1 h2
+
+/-- decidable forms of the two row-level hypotheses -/
+def goodRowsB (rows : List Cells) : Bool :=
+  rows.all fun r => match Rows.get r "name" with | some n => decide (GoodName n) | none => true
+
+def noMetaSectionB (rows : List Cells) : Bool :=
+  rows.all fun r => match Rows.get r "type", Rows.get r "name" with
+    | some t, some n => !(Rows.matchControl "begin" true t).isSome || decide (n ≠ metaName)
+    | _, _ => true
+
+theorem goodRows_of (rows : List Cells) (h : goodRowsB rows = true) : GoodRows rows := by
+  intro r hr n hn
+  have := List.all_eq_true.mp h r hr
+  simp only [hn, decide_eq_true_eq] at this
+  exact this
+
+theorem noMetaSection_of (rows : List Cells) (h : noMetaSectionB rows = true) : NoMetaSection rows := by
+  intro r hr t n ht hn hb
+  have := List.all_eq_true.mp h r hr
+  simp only [ht, hn, hb, Bool.not_true, Bool.false_or, decide_eq_true_eq] at this
+  exact this
+
+example : GoodName "data".toList ∧
+    goodRowsB [[("type".toList, "begin repeat".toList), ("name".toList, "r".toList)],
+              [("type".toList, "text".toList), ("name".toList, "q".toList)], [("type".toList, "end repeat".toList)]] = true ∧
+    noMetaSectionB [[("type".toList, "begin repeat".toList), ("name".toList, "r".toList)],
+              [("type".toList, "text".toList), ("name".toList, "q".toList)], [("type".toList, "end repeat".toList)]] = true := by
+  decide
+
+
 end Pyxv.C19
